@@ -9,7 +9,7 @@ from .build import AnalysisBroken, SRCDIR
 class Function:
     __slots__ = ("name", "unit", "j", "decl", "internal", "hidden", "noreturn", "params",
                  "blocks", "insts", "file", "line", "srcname", "features", "key", "_users",
-                 "intrinsic", "ret", "sname")
+                 "intrinsic", "ret", "sname", "inl")
 
     def __init__(self, unit, j):
         self.unit = unit
@@ -31,6 +31,7 @@ class Function:
         self.key = (unit, self.name) if self.internal else self.name
         self.sname = self.name      # source spelling (private/quirks.h renames undone)
         self._users = None
+        self.inl = None             # synthetic twin with static helpers inlined (lib/vf/inline.py)
 
     @property
     def public(self):
@@ -46,6 +47,8 @@ class Function:
     def loc(self, inst_id=None):
         if inst_id is None:
             return "%s:%d" % (self.file, self.line)
+        if inst_id >= len(self.insts) and self.inl is not None:
+            return self.inl.loc(inst_id)        # an event of the inlined twin (ids of the original are preserved in it)
         ins = self.insts[inst_id]
         return "%s:%d" % (ins.get("fl", self.file), ins.get("ln", 0))
 
